@@ -417,7 +417,9 @@ func createFilesInsideTarGz(info *nfpm.Info, tw *tar.Writer, sizep *int64) (err 
 				Typeflag: tar.TypeDir,
 				Uname:    file.FileInfo.Owner,
 				Gname:    file.FileInfo.Group,
-				ModTime:  file.FileInfo.MTime,
+				// without an explicit format archive/tar rounds to the nearest
+				// second, which can be a second the directory never had
+				ModTime: file.FileInfo.MTime.Truncate(time.Second),
 			})
 		case files.TypeSymlink:
 			err = newItemInsideTarGz(tw, []byte{}, &tar.Header{
